@@ -81,6 +81,26 @@ func cmdCheck(args []string) int {
 	pkgNameOf := map[*FnRun]string{}
 	for _, u := range spec.Units {
 		eng := newEngine(EngineOpts{Timeout: timeout, Thorough: *tier == "thorough", Verbose: *verbose})
+		{
+			// the second-chance pass only matters where an undecided answer would be reported as a violation
+			var kf []KnownFinding
+			loadJSON(filepath.Join(*verif, "known_findings.json"), &kf)
+			var bl Baseline
+			loadJSON(filepath.Join(*verif, "baseline_obligations.json"), &bl)
+			inb := map[string]bool{}
+			for _, k := range bl.Props[prop] {
+				inb[k] = true
+			}
+			wb := *writeBaseline
+			eng.retryOnly = func(o *Obligation) bool {
+				for i := range kf {
+					if kf[i].Property == prop && kf[i].Status != "fixed" && (kf[i].Obligation == o.ClauseKey || kf[i].Obligation == o.Name) {
+						return false
+					}
+				}
+				return inb[o.ClauseKey] && !wb
+			}
+		}
 		unit := u
 		if !filepath.IsAbs(unit.Dir) {
 			unit.Dir = filepath.Join(*repo, unit.Dir)
@@ -177,8 +197,11 @@ func cmdCheck(args []string) int {
 	var base Baseline
 	loadJSON(filepath.Join(*verif, "baseline_obligations.json"), &base)
 	inBase := map[string]bool{}
-	for _, k := range base.Props[prop] {
-		inBase[k] = true
+	if !*writeBaseline {
+		// (when the baseline is being rewritten, an undecided obligation is dropped from it, not reported)
+		for _, k := range base.Props[prop] {
+			inBase[k] = true
+		}
 	}
 	isKnown := func(o *Obligation) *KnownFinding {
 		for i := range known {
@@ -219,7 +242,7 @@ func cmdCheck(args []string) int {
 			case st == "unsat":
 				discharged++
 				dischargedKeys = append(dischargedKeys, o.ClauseKey)
-				if o.Result.Seconds > float64(timeout)/3 {
+				if o.Result.Seconds > float64(timeout)/3 || o.Result.Retried {
 					slowKeys[o.ClauseKey] = true
 				}
 			case st == "error":
